@@ -128,6 +128,10 @@ vcall:
 	and	rax, 0x8D5
 	or	rax, 0x202
 .setflags:
+	test	qword [rbx + ENV.mode], 16
+	jz	.notrace
+	or	rax, 0x100                  ; trap flag: single-step from here until the return
+.notrace:
 	push	rax
 	popfq
 	; argument registers
@@ -166,7 +170,9 @@ vcall:
 	pushfq                              ; lands on the dead return-address slot
 	pop	rax
 	mov	[rbx + ENV.out_gpr + 56], rax
-	cld
+	and	rax, ~0x500                 ; stop single-stepping, clear DF
+	push	rax
+	popfq
 	stmxcsr	[rbx + ENV.mxcsr_out]
 	fnstcw	[rbx + ENV.cw_out]
 	; vector / mask registers
